@@ -824,8 +824,10 @@ func (vm *VirtualMachine) pop() object.Object {
 }
 
 func (vm *VirtualMachine) push(obj object.Object) {
+	// Store first: if the stack is full this panics and the stack pointer
+	// still refers to a valid slot when the panic is recovered
+	vm.stack[vm.sp+1] = obj
 	vm.sp++
-	vm.stack[vm.sp] = obj
 }
 
 // unwindStack pops values until the stack pointer is back at the given level.
@@ -861,9 +863,12 @@ func (vm *VirtualMachine) Call(
 	if err := vm.start(ctx); err != nil {
 		return nil, err
 	}
+	baseSP := vm.sp
 	defer func() {
 		if r := recover(); r != nil {
 			err = fmt.Errorf("panic: %v", r)
+			// The panic skipped the orderly unwinding of the operand stack
+			vm.unwindStack(baseSP)
 		}
 		vm.stop()
 	}()
